@@ -1070,6 +1070,10 @@ def _stored_filters(repo: Repo, res: Result, m: FuncInfo, what: str, translate: 
             for r_ in d.removals:
                 unknown.append(f"elements are removed (`{norm(r_.node, 60)}`)")
     if not relevant:
+        uses = [n for n in own_nodes(view.node) if isinstance(n, ast.Name) and n.id == param and isinstance(n.ctx, ast.Load)]
+        if not uses:
+            res.add("C11.R3", key, False, f"`{param}` is never used: the given {what} is dropped instead of becoming {want}", where(view, view.node), kind="flow")
+            return
         res.undecide("C11.R3", key, f"no store of filters built from `{param}` into the rule's state was recognised", where(view, view.node))
         return
     if unknown:
@@ -1087,7 +1091,7 @@ def _stored_filters(repo: Repo, res: Result, m: FuncInfo, what: str, translate: 
                 continue
             var = c.binders[0].names[0] if c.binders else param
             # the parameter is iterated unless it is a str, and wrapped into a one-element list only if it is one
-            for e, pol in flatten(list(c.conds) + [x for x in c.context if _is_str_test(x[0], param)]):
+            for e, pol in flatten(list(c.conds) + [x for x in flatten(co.xc(c.context)) if _is_str_test(x[0], param)]):
                 if _is_str_test(e, param):
                     if pol == bool(c.binders):
                         dropped.append(f"`{param}` is {'iterated although it is a str' if c.binders else 'taken as a single name although it is not a str'} (`{'' if pol else 'not '}{show(e)}`)")
